@@ -77,6 +77,13 @@ func truncate(s *slip.Scope, f slip.Object, args slip.List, depth int) slip.Valu
 		if div.(slip.Fixnum) == 0 {
 			slip.DivisionByZeroPanic(s, depth, slip.Symbol("truncate"), args, "divide by zero")
 		}
+		if div.(slip.Fixnum) == -1 {
+			// Not a division as the most negative fixnum divided by -1 is
+			// not a fixnum.
+			q = subFixnums(0, tn)
+			r = slip.Fixnum(0)
+			break
+		}
 		q = tn / div.(slip.Fixnum)
 		r = tn - q.(slip.Fixnum)*div.(slip.Fixnum)
 	case slip.SingleFloat:
